@@ -237,8 +237,10 @@ BinOp(op, a, b, S) ==     \* both operands evaluated; <<value, S'>>
     [] op = "<=" -> <<Bool(na.q <= nb.q), S>>
     [] op = ">"  -> <<Bool(na.q > nb.q), S>>
     [] op = ">=" -> <<Bool(na.q >= nb.q), S>>
-    [] op = ".." -> IF ~IsIntV(na) \/ ~IsIntV(nb) \/ nb.q < na.q \/ nb.q - na.q > 64 * Scale THEN <<OOM, OomS(S)>>
-                    ELSE <<Arr([i \in 1..((nb.q - na.q) \div Scale + 1) |-> Num(na.q + (i - 1) * Scale)]), S>>
+    [] op = ".." -> IF ~IsIntV(na) \/ ~IsIntV(nb) \/ Abs(nb.q - na.q) > 64 * Scale THEN <<OOM, OomS(S)>>
+                    ELSE IF nb.q >= na.q
+                    THEN <<Arr([i \in 1..((nb.q - na.q) \div Scale + 1) |-> Num(na.q + (i - 1) * Scale)]), S>>
+                    ELSE <<Arr([i \in 1..((na.q - nb.q) \div Scale + 1) |-> Num(na.q - (i - 1) * Scale)]), S>>   \* counts down
     [] op \in {"b-and", "b-or", "b-xor"} -> LET r == NBit(op, na, nb) IN <<r, IF IsOOM(r) THEN OomS(S) ELSE S>>
     [] op = "~" -> IF BytesOOM(sa) \/ BytesOOM(sb) THEN <<OOM, OomS(S)>> ELSE <<Str(sa \o sb), S>>
     [] op = "==" -> B3(Equal3(a, b), S)
